@@ -186,6 +186,26 @@ pub fn mirror_scenario(prop: &str, seed: u64, index: u64) -> Option<Scenario> {
     };
     scn.calls = setup(0);
     scn.calls.push(solve.clone());
+    // a start marginally outside a box bound: the core roots its tree at the start as given
+    if prop == "C19" && rng.chance(0.06) {
+        let b: Option<Vec<(f64, f64)>> = match &scn.space {
+            SpaceSpec::RV { bounds: Some(b), .. } => Some(b.clone()),
+            SpaceSpec::SE2 { bounds, .. } => Some(bounds[..2].to_vec()),
+            SpaceSpec::SE3 { bounds, .. } => Some(bounds.clone()),
+            _ => None,
+        };
+        if let Some(b) = b {
+            let i = rng.below(b.len() as u64) as usize;
+            let eps = (b[i].1 - b[i].0) * rng.range(1e-3, 5e-3);
+            scn.problems[0].starts[0][i] = if rng.chance(0.5) { b[i].0 - eps } else { b[i].1 + eps };
+            let mut g = geo_for(&scn.space).ok()?;
+            g.set_worlds(&scn.worlds);
+            if !g.valid(0, &scn.problems[0].starts[0]) {
+                return None;
+            }
+            scn.params.insert("start_out_of_bounds".into(), 1.0);
+        }
+    }
     // Python only: the wrapper objects are mutated after the problem definition took its snapshot
     if prop == "C19" && rng.chance(0.15) {
         scn.params.insert("mutate_after_pd".into(), 1.0);
@@ -351,7 +371,8 @@ pub fn gen_wrapper_cases(seed: u64, n: u64, path: &str) -> std::io::Result<u64> 
                 let r = SO2StateSpace::new(bounds);
                 let mut exp = json!({"err": errs(r.as_ref().err().map(|e| e.to_string()))});
                 if let Ok(sp) = &r {
-                    let (a, b) = (lattice_f(&mut rng), lattice_f(&mut rng));
+                    let a = lattice_f(&mut rng);
+                    let b = if rng.chance(0.2) { a } else { lattice_f(&mut rng) };
                     exp["extent"] = json!(sp.get_maximum_extent());
                     exp["distance"] = json!(sp.distance(&SO2State::new(a), &SO2State::new(b)));
                     exp["a"] = json!(a);
@@ -367,7 +388,9 @@ pub fn gen_wrapper_cases(seed: u64, n: u64, path: &str) -> std::io::Result<u64> 
                 let r = SO3StateSpace::new(bounds.map(|(c, a)| (SO3State::new(c[0], c[1], c[2], c[3]), a)));
                 let mut exp = json!({"err": errs(r.as_ref().err().map(|e| e.to_string()))});
                 if let Ok(sp) = &r {
-                    let (a, b) = (q(&mut rng), q(&mut rng));
+                    let a = q(&mut rng);
+                    // equal arguments too (non-unit quaternions have a non-zero self-distance)
+                    let b = if rng.chance(0.3) { a } else { q(&mut rng) };
                     exp["extent"] = json!(sp.get_maximum_extent());
                     let d = sp.distance(&SO3State::new(a[0], a[1], a[2], a[3]), &SO3State::new(b[0], b[1], b[2], b[3]));
                     exp["distance"] = if d.is_finite() { json!(d) } else { json!("nan") };
@@ -400,7 +423,8 @@ pub fn gen_wrapper_cases(seed: u64, n: u64, path: &str) -> std::io::Result<u64> 
                 if let Ok(sp) = &r {
                     let q = |rng: &mut Xo| [rng.range(-1.0, 1.0), rng.range(-1.0, 1.0), rng.range(-1.0, 1.0), rng.range(-1.0, 1.0)];
                     let (ta, tb) = ([lattice_f(&mut rng), lattice_f(&mut rng), lattice_f(&mut rng)], [lattice_f(&mut rng), lattice_f(&mut rng), lattice_f(&mut rng)]);
-                    let (qa, qb) = (q(&mut rng), q(&mut rng));
+                    let qa = q(&mut rng);
+                    let qb = if rng.chance(0.3) { qa } else { q(&mut rng) };
                     let d = sp.distance(
                         &SE3State::new(ta[0], ta[1], ta[2], SO3State::new(qa[0], qa[1], qa[2], qa[3])),
                         &SE3State::new(tb[0], tb[1], tb[2], SO3State::new(qb[0], qb[1], qb[2], qb[3])),
